@@ -71,8 +71,9 @@ Theorem C01_insert_semantics :
 Proof. exact insert_semantics. Qed.
 Print Assumptions C01_insert_semantics.
 
-(* a committed optimistic insert: in every reachable store the key has no value just below the insert's commit ts
-   (the history oracle's insert clause, evaluated on the final history) *)
+(* a committed insert, optimistic (checked by the prewrite at the start ts) or pessimistic (checked by the lock request
+   at the for-update ts, the lock excluding other commits up to the commit): in every reachable store the key has no
+   value just below the insert's commit ts (the history oracle's insert clause, evaluated on the final history) *)
 Theorem C01_insert_commit_point : forall cmds k s,
   oracle_ts cmds = true -> ww_discipline cmds = true -> ins_discipline cmds k s = true ->
   forall w, In w (writes_of (run cmds) k) -> w_start w = s -> w_kind w = WPut ->
@@ -111,7 +112,9 @@ Definition ex_cmds : list cmd :=
     Prewrite [mkMut MPut 1 33 AsNone true] 1 (T 2) (T 6) 1 0 false; Commit [1] (T 2) (T 8);
     Get 1 (T 5) []; Get 1 (T 9) [];
     Prewrite [mkMut MInsert 2 44 AsNone false] 2 (T 10) 0 1 0 false; Commit [2] (T 10) (T 11);   (* insert of an absent key *)
-    Prewrite [mkMut MInsert 1 55 AsNone false] 1 (T 12) 0 1 0 false ].                           (* insert of a present key *)
+    Prewrite [mkMut MInsert 1 55 AsNone false] 1 (T 12) 0 1 0 false;                             (* insert of a present key *)
+    PessLock (mkPessReq [(3, true)] 3 (T 13) (T 14) 3 0 false true false false true);            (* pessimistic insert of k3 *)
+    Prewrite [mkMut MInsert 3 66 AsNone true] 3 (T 13) (T 14) 1 0 false; Commit [3] (T 13) (T 15) ].
 Example ex_discipline : oracle_ts ex_cmds = true /\ ww_discipline ex_cmds = true.
 Proof. vm_compute. split; reflexivity. Qed.
 Example ex_read : get (run (firstn 2 ex_cmds)) 1 (T 5) [] = RGet (Some (17, T 3))
@@ -125,6 +128,9 @@ Proof. vm_compute. repeat split. Qed.
 Example ex_insert : snd (step (run (firstn 8 ex_cmds)) (nth 8 ex_cmds (GC 0 0 0))) = RErrs [None]
   /\ step (run (firstn 10 ex_cmds)) (nth 10 ex_cmds (GC 0 0 0)) = (run (firstn 10 ex_cmds), RErrs [Some (EAlreadyExist 1)]).
 Proof. vm_compute. split; reflexivity. Qed.
+Example ex_insert_point_pess : ins_discipline ex_cmds 3 (T 13) = true /\ lock_point ex_cmds 3 (T 13) = T 14
+  /\ writes_of (run ex_cmds) 3 = [mkWrite WPut (T 13) (T 15) 66] /\ hist_read (history (run ex_cmds) 3) (T 15 - 1) = None.
+Proof. vm_compute. repeat split. Qed.
 Example ex_insert_point : ins_discipline ex_cmds 2 (T 10) = true
   /\ writes_of (run ex_cmds) 2 = [mkWrite WPut (T 10) (T 11) 44] /\ hist_read (history (run ex_cmds) 2) (T 11 - 1) = None.
 Proof. vm_compute. repeat split. Qed.
